@@ -161,7 +161,57 @@ def run_type(i, label, spec, tier, st):
     dc.periodic_reset(i)
 
 
+def run_discriminated(st):
+    """discriminated unions / classes (C13's world, outside the grammar): deserialize acceptance vs validity
+    against the deserialization schema, for every (discriminator value, body)"""
+    import sys
+
+    from ..realize import PRELUDE, exec_source
+    from .c13 import DISC_SRC
+
+    m = exec_source(PRELUDE + DISC_SRC)
+    try:
+        for name, (utp, key, mapping, _declares) in m.EXPECT.items():
+            for ap in (False, True):
+                try:
+                    schema = deserialization_schema(utp, additional_properties=ap)
+                    Draft202012Validator.check_schema(schema)
+                    validator = Draft202012Validator(schema)
+                    method = apischema.deserialization_method(utp, additional_properties=ap)
+                except Exception as e:
+                    st.violation({"label": "disc:" + name, "signature": {"kind": "schema_generation", "exc": type(e).__name__, "world": name}, "what": f"{name}: {e!r}"[:300]})
+                    continue
+                for k in list(mapping) + ["nope", "<absent>"]:
+                    for body in ({}, {"x": 1}, {"x": "bad"}, {"n": 2}, {"v": 3}, {"x": 1, "zz": 0}):
+                        d = dict(body)
+                        if k != "<absent>":
+                            d[key] = k
+                        kind, out = dc.run_impl(method, d)
+                        if kind == "exc":
+                            continue
+                        valid = validator.is_valid(d)
+                        st.case("disc", name, ap, repr(k), tuple(sorted(body)), kind)
+                        if valid != (kind == "ok"):
+                            st.violation(
+                                {
+                                    "label": "disc:" + name,
+                                    "options": [ap],
+                                    "datum": repr(d),
+                                    "signature": {"kind": "disagree", "world": "discriminated", "union": name, "direction": "schema_accepts_deser_rejects" if valid else "schema_rejects_deser_accepts"},
+                                    "what": f"{name} <- {d!r}: deserialize {'accepts' if kind == 'ok' else 'rejects'} but the schema {'accepts' if valid else 'rejects'} it"[:300],
+                                    "schema": json.dumps(schema)[:1500],
+                                }
+                            )
+    finally:
+        sys.modules.pop(m.__name__, None)
+        apischema.cache.reset()
+
+
 def work(tier, widx, nworkers, st, extra):
+    import os
+
+    if widx == 0 and os.environ.get("VERIF_ONLY") in (None, "", "disc"):
+        run_discriminated(st)
     for i, label, spec in dc.my_types(tier, widx, nworkers):
         run_type(i, label, spec, tier, st)
 
